@@ -79,6 +79,13 @@ struct vecx : ind::rebind<vecx>::remove<indirect_vptr>::remove<type_hash> {};
 struct sdbg : debug::rebind<sdbg> {};
 struct srel : release::rebind<srel> {};
 
+// the stock policy of release builds of programs that use yomm2 as a shared
+// library (YOMM2_SHARED + NDEBUG): it *derives* from debug_shared - catalogs,
+// tables, checked hash and handler are debug_shared's - and overrides only
+// dynamic_vptr with an unchecked look-up. No world is made for debug_shared
+// itself in this process: the two are one policy with two names by design.
+using shr = yorel::yomm2::policy::release_shared;
+
 // the same two, with static_offsets<> specialised for every pooled method
 // (C12): the call path reads slots and strides from what the generator wrote
 struct sofd : debug::rebind<sofd> {};
